@@ -73,8 +73,13 @@ func C04(run *hx.Run) {
 				continue
 			}
 			if _, err, _ := collectSelect(db, t.Name, []string{t.RowidName()}); err != nil {
-				run.Count("tables_rejected_by_sqlittle", 1)
-				continue
+				// out of scope only when the DEFINITION is refused; a scan that fails on an accepted definition
+				// (a page sqlittle cannot read) must not hide the lookups on that table
+				if _, cerr := db.Columns(t.Name); cerr != nil {
+					run.Count("tables_rejected_by_sqlittle", 1)
+					continue
+				}
+				run.Count("tables_scan_failed_definition_accepted", 1)
 			}
 			byID := map[int64]hx.Row{}
 			for _, r := range full {
